@@ -11,10 +11,11 @@ import time
 
 FINISH = dict(level="proof", rule=(
     "crash points: idle / exec_running / exec_running_after / in_sync / after_exec_returned / file_ops / init_command / "
-    "ptrace_running, each with the kill delivered 0..200 ms after the announcement; programs are process trees of 7 tasks "
+    "ptrace_running / ptrace_in_sync / forkexec_in_sync / ns_in_sync (the launcher dies inside the sync callback), each with the kill delivered 0..200 ms after the announcement; programs are process trees of 7 tasks "
     "that ignore all signals.  Non-trivial: every crash point with a live program; distinct = distinct (point, delay)."))
 
-POINTS = ["idle", "exec_running", "exec_running_after", "in_sync", "after_exec_returned", "file_ops", "init_command", "ptrace_running"]
+POINTS = ["idle", "exec_running", "exec_running_after", "in_sync", "after_exec_returned", "file_ops", "init_command", "ptrace_running",
+          "ptrace_in_sync", "forkexec_in_sync", "ns_in_sync"]
 
 
 def procs_with(token):
@@ -81,7 +82,7 @@ def run(c):
         time.sleep(d)
         before = [q for q in procs_with(token) if q != p.pid]
         # held at the sync point the child has not exec'ed the target yet: it is known by its pid only
-        if pt == "in_sync" and ann.get("pid") and alive(ann["pid"]):
+        if pt.endswith("in_sync") and ann.get("pid") and alive(ann["pid"]):
             before.append(ann["pid"])
         init = ann.get("init", 0)
         os.kill(p.pid, signal.SIGKILL)
@@ -89,7 +90,7 @@ def run(c):
         deadline = time.time() + 3.0
         left, init_alive = before, True
         while time.time() < deadline:
-            left = procs_with(token) + ([ann["pid"]] if pt == "in_sync" and ann.get("pid") and alive(ann["pid"]) else [])
+            left = procs_with(token) + ([ann["pid"]] if pt.endswith("in_sync") and ann.get("pid") and alive(ann["pid"]) else [])
             init_alive = bool(init) and alive(init)
             if not left and not init_alive:
                 break
